@@ -372,10 +372,14 @@ fn get_targets_root_only(
         )
     } else {
         let current_dir = env::current_dir()?.canonicalize()?;
-        (
-            workspace_root_path == current_dir,
-            current_dir.join("Cargo.toml"),
-        )
+        // Like cargo, find the current package from any directory inside it: its manifest
+        // is the nearest one at or above the working directory.
+        let current_dir_manifest = current_dir
+            .ancestors()
+            .map(|dir| dir.join("Cargo.toml"))
+            .find(|manifest| manifest.is_file())
+            .unwrap_or_else(|| current_dir.join("Cargo.toml"));
+        (workspace_root_path == current_dir, current_dir_manifest)
     };
 
     let package_targets = match metadata.packages.len() {
